@@ -36,11 +36,11 @@ check("C03", "fixed-point runtime monitor on every reachable state (parse + afte
       TRUST_MODEL, "DESIGN.md §5 C03")
 check("C04", "invariant monitor at every quiescent point (after every API call) of parse/setter/resolve histories",
       "Asserts the structural invariants of the property (scheme grammar, host/path/opaque coherence, credentials/port guards, canonical non-default port, printable ASCII, percent-encode-set and "
-      "forbidden-code-point freedom per component, Href composition from the getters, Host/Hostname/Port, Href(true)) on a snapshot of the getters after every step.",
+      "forbidden-code-point freedom per component, Href composition from the getters, Host/Hostname/Port, Href(true)) on a snapshot of the getters (read in a per-case order) after every step; the composition clauses also under sampled parser configurations (incl. host hooks that read the URL) and after SetSearchParams with parameters of another parser's URL.",
       TRUST_REL + " Encode sets and forbidden sets as transcribed in SPEC-NOTES.md §A.", "DESIGN.md §5 C04")
 check("C05", "history + executable model: setter sequences applied to implementation and reference model, compared after every step; pairwise-exhaustive block",
       "Applies sequences of the nine setters to the implementation and to the reference model's setter algorithms, carrying the model state along and comparing Href and all getters after every step, "
-      "so a divergence is attributed to the first differing call. A block of all ordered pairs of (setter, value) over curated pools on 30 start URLs is sampled (quick) or enumerated completely (thorough).",
+      "so a divergence is attributed to the first differing call; some cases read nothing (or one getter only) between the steps, some re-set a component to its current value in another spelling, some use giant values. A block of all ordered pairs of (setter, value) over curated pools on 30 start URLs is sampled (quick) or enumerated completely (thorough).",
       TRUST_MODEL, "DESIGN.md §5 C05")
 check("C06", "relational (metamorphic) monitor: six resolution laws checked on generated (base, reference) pairs",
       "Checks the laws the property lists (three entry points agree; serialization resolves to itself against any base; empty, '#f' and '?q' references; scheme inheritance; opaque bases) as relations "
@@ -56,7 +56,7 @@ check("C08", "differential monitor vs reference model: exhaustive zero-mask grid
       TRUST_MODEL, "DESIGN.md §5 C08")
 check("C09", "metamorphic runtime monitor: two spellings (ASCII case, whole-code-point percent-encoding) of one decoded host must give the same result",
       "Generates decoded hosts from ASCII and Unicode pools and the IdnaTestV2/toascii inputs, spells each twice and requires equal hostnames (or both failing), ASCII-lowercase forbidden-free results, "
-      "the exact lowercased form for pure-ASCII non-ACE hosts, and the empty host for every spelling of localhost in file URLs. No Unicode mapping is demanded.",
+      "the exact lowercased form for pure-ASCII non-ACE hosts (also under identity host hooks), and the empty host for every spelling of localhost in file URLs - through parsing, the host setters and a scheme-relative reference. No Unicode mapping is demanded.",
       TRUST_REL, "DESIGN.md §5 C09")
 check("C10", "exhaustive membership comparison (0x110000 code points x 6 sets) + copy-on-derive monitor with table fingerprint hook + codec-law monitor on strings",
       "Set membership is a finite table and is compared completely on every run; Set/Clear chains must leave the parent (membership profile and fingerprint) untouched; encode/decode laws are checked "
@@ -68,21 +68,21 @@ check("C11", "history + executable model: SearchParams operations vs a 30-line s
       "Trusted base: the Go toolchain; the urlencoded parser and list semantics of SPEC-NOTES.md §E. Held = held on the executions listed in the evidence.", "DESIGN.md §5 C11")
 check("C12", "invariant monitor over interleavings of SearchParams mutations, SetSearch and other setters, with several handles per URL",
       "After every SearchParams mutation Query/Search/Href must equal the handle's serialization; after SetSearch every handle (also ones fetched earlier) must equal the urlencoded parse of the new "
-      "query; other setters must disturb neither side. Handles are read without mutating (String/GetAll/Has).",
+      "query; other setters must disturb neither side. Handles are read without mutating (String/GetAll/Get/Has) in a per-case order, a third of the cases read nothing before the last step; start URLs include clones and resolution results of URLs whose parameters were fetched before; steps include mutation through Iterate's pair pointers, from inside the callback, and a callback that panics.",
       TRUST_REL + " urlencoded parser of SPEC-NOTES.md §E.", "DESIGN.md §5 C12")
 check("C13", "two-sided isolation monitor with an independently constructed control twin (resolve and Clone pairs, operation sequences on either side)",
       "Operations are applied to one of {base, result} / {original, clone}; the untouched side must keep every getter and its parameter list, and the operated side must equal a twin built from a "
-      "fresh parse of the same strings and the same operations, which by construction shares nothing. Behavioural verdict only.",
+      "fresh parse of the same strings and the same operations, which by construction shares nothing; a clone must also behave like an independent original, a resolution result like a fresh parse of its serialization, under the same later operations; in some cases the untouched side is first read only after all operations. Behavioural verdict only.",
       TRUST_REL, "DESIGN.md §5 C13")
 check("C14", "Go race detector (-race build) over barrier-released goroutine rounds on fresh shared objects + result equality with sequential twin + fingerprint hooks",
       "The one compiler sanitizer that applies: 64 (quick) / 256 (thorough) short-lived processes, each starting with cold rounds (first use of the library happens concurrently; fingerprints taken before), then rounds of 2-16 "
       "goroutines that use shared parsers, profiles and a freshly parsed shared base URL (getters, Clone, resolution, mutation of the results they own); race reports are counted "
-      "from the log and de-duplicated by stack; every concurrent result must equal the sequential one; table/parser/profile fingerprints and the base snapshot must be unchanged. The evidence lists "
-      "which operation pairs were actually in flight together.",
+      "from the log and de-duplicated by stack; every concurrent result must equal the sequential one; table/parser-option/profile fingerprints and the base snapshot must be unchanged. One process in sixteen adds a soak round on the long-lived shared objects "
+      "(24 000 / 120 000 distinct names from 16 goroutines, early names again, link extraction against per-goroutine bases, values obtained before must be unchanged after). The evidence lists which operation pairs were actually in flight together.",
       "Trusted base: the Go race detector (sees only races on executed paths within its shadow window) and toolchain. Counting hooks are disabled in this build (plain variables by design).", "DESIGN.md §5 C14")
-check("C15", "four-configuration relational monitor (default / reporting / fail-on-validation-error / both) + error classification against the constants of errors/codes.go",
-      "Parses every generated (input, base) under the four diagnostic configurations and checks the relations of the property between the runs, the documented type and failure flag of every returned "
-      "error and the non-fatal flag of every recorded entry. The documented set is read from /repo/errors/codes.go at run time.",
+check("C15", "five-configuration relational monitor (default / reporting / fail-on-validation-error / both in either order) + error classification against the constants of package errors",
+      "Parses every generated (input, base) under the diagnostic configurations and checks the relations of the property between the runs, the documented type and failure flag of every returned "
+      "error and the non-fatal flag of every recorded entry; reporting must also be neutral when added to sampled parser/canonicalizer configurations. The documented set is read from the constant declarations of /repo/errors/*.go at run time.",
       TRUST_REL, "DESIGN.md §5 C15")
 check("C16", "per-clause differential monitors between parsers built from different option lists; parameterised reference model for replaced encode sets and added special schemes",
       "One sub-check per clause of the property: no-option equivalence, remove-* == setters with \"\" (model and implementation oracles), sort-query postconditions, default-scheme retry, conservative "
@@ -98,10 +98,10 @@ check("C18", "metamorphic runtime monitor: two independently varied spellings of
       "profile incl. the 96 compositions) and requires equal canonical strings.",
       TRUST_REL, "DESIGN.md §5 C18")
 check("C19", "invariant monitor on derived accessors after every step of parse/setter/resolve/clone histories",
-      "IsIPv4, IsIPv6, DecodedPort, Protocol/Scheme, Search/Query, Hash/Fragment, OpaquePath and IsSpecialScheme are recomputed from the primary components and the serialization and compared after every step.",
+      "IsIPv4, IsIPv6, DecodedPort, Protocol/Scheme, Search/Query, Hash/Fragment, OpaquePath and IsSpecialScheme are recomputed from the primary components and the serialization and compared after every step - also for parsers with custom special-scheme tables (against that table) and under sampled parser configurations.",
       TRUST_REL, "DESIGN.md §5 C19")
 check("C20", "resource monitor: fitted growth exponent of allocated bytes (MemStats, GC off), hook-counted parser work and thread CPU time over repetition families",
-      "For 92 repetition families (one and two long components; ten under the relaxing parser options) and n = 2^10..2^14 (2^18 thorough) the log-log slope of deterministic cost measures (allocated bytes, parser steps + cursor moves) must stay below 1.35; thread CPU time "
+      "For 131 repetition families (one and two long components; non-ASCII and invalid bytes in every component; families under the relaxing options and under reporting; every setter on a reporting-mode URL; repeated long tokens up to 1 MiB) and n = 2^10..2^14 (2^18 thorough) the log-log slope of deterministic cost measures (allocated bytes, parser steps + cursor moves) must stay below 1.35; thread CPU time "
       "only confirms (slope > 1.5, > 50 ms, twice), otherwise inconclusive. Wall-clock time is never used.",
       "Trusted base: Go runtime memory statistics and the counting hooks. Growth beyond the measured sizes or for unlisted fragments is out of reach.", "DESIGN.md §5 C20")
 
